@@ -63,6 +63,11 @@ def build(v):
                                                         attributes={'a': 'b'}))
     if kind == 'foreign_attr':
         inst.extension_attributes['{%s}attr' % FOREIGN_NS] = 'kept'
+    if kind in ('ownns_attr', 'ownns_attr_both'):
+        a = [x for x in t['attributes'] if x['member'] == v['which']][0]
+        inst.extension_attributes['{%s}%s' % (t['ns'], a['xml'])] = 'look-alike kept'
+        if kind == 'ownns_attr_both':
+            setattr(inst, a['member'], attr_value(a))
     if kind == 'text_special':
         inst.text = 'a <&> "q" \'s\' ]]> b'
     if kind == 'text_unicode':
@@ -144,7 +149,7 @@ def main():
     if chk.tier != 'thorough':
         keep = []
         for c in cases:
-            if c['v']['kind'] in ('empty', 'allattrs', 'allchildren', 'foreign_child', 'foreign_attr') or not c['roundTrips'] \
+            if c['v']['kind'] in ('empty', 'allattrs', 'allchildren', 'foreign_child', 'foreign_attr', 'ownns_attr', 'ownns_attr_both') or not c['roundTrips'] \
                     or chk.rng.random() < 0.35:
                 keep.append(c)
         cases = keep
@@ -177,8 +182,8 @@ def main():
                 chk.sample({'variant': v, 'serialised': out.get('text', '')[:200]}, limit=4)
     chk.cov['exhaustive'] = chk.tier == 'thorough'
     chk.cov['rule'] = ('variants of Schema.tla for each of the exported classes (nothing set, each attribute, all attributes, each child '
-                      'with 1..3 instances, all children, foreign child, foreign attribute, XML-special and non-ASCII text): thorough '
-                      'all 12 511, quick the structural kinds plus a seeded third of the rest; distinct = distinct (class, variant)')
+                      'with 1..3 instances, all children, foreign child, foreign attribute, own-namespace look-alike of a declared attribute, XML-special and non-ASCII text): thorough '
+                      'all 13 480, quick the structural kinds plus a seeded third of the rest; distinct = distinct (class, variant)')
     chk.cov['classes'] = len(table())
     chk.assumptions = ['depth-1 instances (children are empty instances of their class); deeper nesting is reached through the same '
                        'generic code path', 'text content restricted to two classes of strings per class']
